@@ -350,6 +350,23 @@ func (x *runner) report(c caseDef, r *request, dir string) {
 		mesh += ":filter-state"
 	}
 	key := fmt.Sprintf("%s:%s%s:%s", chain, dir, mesh, setShape(m.Pols))
+	if len(m.Pols) == 1 && len(m.Pols[0].Rules) == 1 && len(m.Pols[0].Rules[0].all()) == 1 && !isBad(m.Pols[0].Rules[0].all()[0]) &&
+		(r.HTTP || !m.Pols[0].Rules[0].all()[0].def().dim.httpOnly()) {
+		// one condition is enough to show it: the generated matcher for this literal form is wrong. Whether
+		// that admits or rejects too much follows from action and polarity, and the HTTP and TCP chains
+		// (and the filter-state variant) use the same matcher, so all of them share one key.
+		a := m.Pols[0].Rules[0].all()[0]
+		tooWide := (dir == "more-permissive") != (m.Pols[0].Action == "DENY") != a.Not
+		how := "matches-too-little"
+		if tooWide {
+			how = "matches-too-much"
+		}
+		al := ""
+		if len(m.Mesh.Aliases) > 0 {
+			al = ":aliases"
+		}
+		key = fmt.Sprintf("matcher:%s:%s:%s%s", a.Field, a.Form, how, al)
+	}
 	x.res.Violate(key, describe(m, b, r, want, got), replayC08{Case: m, Req: *r})
 }
 
@@ -362,7 +379,7 @@ func TestC08(t *testing.T) {
 	env := engine.GetEnv()
 	res := engine.NewResult("C08", "a-decision")
 	res.Rule = "configuration = mesh trust domains x policy set from the grammar (every single condition; every pair of conditions in one rule, ANDed or as two list entries; " +
-		"every pair of core rules in one policy; every DENY+ALLOW pair of core policies); checked on the HTTP and the TCP chain against every request of the product of the " +
+		"thorough: every triple of conditions ANDed in one rule; every pair of core rules in one policy; every DENY+ALLOW pair of core policies); checked on the HTTP and the TCP chain against every request of the product of the " +
 		"alphabets (literals + near misses) of the request dimensions the policies mention; non-trivial = configuration for which the policy semantics admit some request and reject another"
 	defer res.Write(t, env)
 	quietLogs()
@@ -414,7 +431,7 @@ func TestC08(t *testing.T) {
 
 	// determinism: the same configuration built twice gives byte-identical filters
 	{
-		c := caseDef{Mesh: mesh1, Pols: []polSpec{{Action: "ALLOW", NS: "foo", Name: "p0", Rules: coreRules()[:8]}}}
+		c := caseDef{Mesh: mesh1, Pols: []polSpec{{Action: "ALLOW", NS: "foo", Name: "p0", Rules: coreRules(false)[:8]}}}
 		b1, b2 := buildCase(c), buildCase(c)
 		if protojson.Format(b1.httpRaw[0]) != protojson.Format(b2.httpRaw[0]) || protojson.Format(b1.tcpRaw[0]) != protojson.Format(b2.tcpRaw[0]) {
 			res.Infra = "the builder is not deterministic"
@@ -449,7 +466,7 @@ func TestC08(t *testing.T) {
 	}
 
 	// level 2: every pair of conditions in one rule
-	pairAtoms := atomsFor(inPairs)
+	pairAtoms := atomsFor(inQuick)
 	if thorough {
 		pairAtoms = atomsFor(0)
 	}
@@ -467,8 +484,23 @@ func TestC08(t *testing.T) {
 		}
 	}
 
+	// level 2b (thorough): every triple of pair-level conditions ANDed in one rule
+	if thorough {
+		tri := atomsFor(inPairs)
+		res.Bounds["triple_conditions"] = len(tri)
+		for i := range tri {
+			for j := i + 1; j < len(tri); j++ {
+				for k := j + 1; k < len(tri); k++ {
+					for _, act := range actions {
+						x.runCase("triple", caseDef{Mesh: mesh0, Pols: []polSpec{{Action: act, Rules: []ruleSpec{ruleOf(tri[i], tri[j], tri[k])}}}}, true)
+					}
+				}
+			}
+		}
+	}
+
 	// level 3: every pair of core rules in one policy
-	rules := coreRules()
+	rules := coreRules(thorough)
 	res.Bounds["core_rules"] = len(rules)
 	for i := range rules {
 		for j := i; j < len(rules); j++ {
